@@ -176,6 +176,7 @@ class Ctx:
         self.alts = []          # alternative prefixes discovered on this run
         self.requires = []      # (name, z3 Bool, len(pc)) obligations raised along the path
         self.writes = []        # (id(obj), description)
+        self.reads = []         # (id(obj), attribute name) of instance-attribute reads (non-interference obligations)
         self.counter = 0
         self.pure = 0
         self.timeout = solver_timeout_ms
@@ -541,6 +542,9 @@ class Interp:
 
     def x_For(self, st, frame):
         it = self.eval(st.iter, frame)
+        from .absx import AbsSeqList
+        if isinstance(it, AbsSeqList) and not it.head and not it.tail:
+            it = it.middle
         if self.loop_specs:
             key = (frame.qualname, self._loop_ordinal(st))
             spec = self.loop_specs.get(key)
@@ -996,6 +1000,9 @@ class Interp:
         if len(gens) == 1:
             from .absx import AbsColl, AbsMap
             src = self.eval(gens[0].iter, frame)
+            from .absx import AbsSeqList
+            if isinstance(src, AbsSeqList) and not src.head and not src.tail:
+                src = src.middle
             if isinstance(src, AbsColl):
                 g = gens[0]
 
